@@ -153,13 +153,13 @@ class NotConverged(Exception):
     pass
 
 
-def dmet_energy(geom, frags, solver, basis="sto-3g", loc="meta_lowdin", charge=0, spin=0):
+def dmet_energy(geom, frags, solver, basis="sto-3g", loc="meta_lowdin", charge=0, spin=0, uhf=False):
     from tangelo import SecondQuantizedMolecule
     from tangelo.problem_decomposition import DMETProblemDecomposition
     from tangelo.problem_decomposition.dmet import Localization
     with warnings.catch_warnings():
         warnings.simplefilter("ignore")
-        mol = SecondQuantizedMolecule(geom, q=charge, spin=spin, basis=basis)
+        mol = SecondQuantizedMolecule(geom, q=charge, spin=spin, basis=basis, uhf=uhf)
         d = DMETProblemDecomposition({"molecule": mol, "fragment_atoms": frags, "fragment_solvers": solver, "electron_localization": getattr(Localization, loc)})
         d.build()
         try:
@@ -227,7 +227,21 @@ def _dmet_case(ctx, rng, kind):
     counts = [len(p) for p in parts]
     solver = rng.choice(["fci", "ccsd"])
     basis = "6-31g" if loc == "iao" else "sto-3g"
-    e0, _, _ = dmet_energy(geom, counts, solver, basis, loc)
+    # electronic state: closed shell, or an open-shell (UHF) state whose charge and spin must survive the re-ordering
+    charge, spin, uhf = rng.choice([(0, 0, False), (0, 0, False), (2, 2, True), (0, 2, True)])
+    if uhf:
+        solver = "ccsd"
+        if loc == "iao":            # IAO localisation does not accept an unrestricted mean field
+            loc, basis = "meta_lowdin", "sto-3g"
+    try:
+        e0, _, _ = dmet_energy(geom, counts, solver, basis, loc, charge, spin, uhf)
+    except NotConverged:
+        raise
+    except Exception as ex:
+        if not uhf:
+            raise
+        ctx.count("dmet:open-shell-count-based-raises:" + type(ex).__name__)     # this state is not supported at all: nothing to compare
+        return True
     perm = list(range(n))
     rng.shuffle(perm)                      # new position k holds old atom perm[k]
     geom_p = [geom[perm[k]] for k in range(n)]
@@ -241,12 +255,20 @@ def _dmet_case(ctx, rng, kind):
         if cand != sorted(cand) and [len(c) for c in cand] != [len(c) for c in sorted(cand)]:
             break
     frag_lists = [frag_lists[i] for i in order]
-    case = {"kind": "dmet", "sub": "relabel", "geom": [[a, list(p)] for a, p in geom], "parts": parts, "perm": perm, "frag_lists": frag_lists, "solver": solver, "loc": loc}
+    case = {"kind": "dmet", "sub": "relabel", "geom": [[a, list(p)] for a, p in geom], "parts": parts, "perm": perm, "frag_lists": frag_lists, "solver": solver, "loc": loc,
+            "charge": charge, "spin": spin, "uhf": uhf}
     ctx.case(case, nontrivial=perm != sorted(perm) or order != sorted(order), sample=False)
     ctx.count("dmet:relabel")
-    e1, _, _ = dmet_energy(geom_p, frag_lists, solver, basis, loc)
+    ctx.count(f"dmet:relabel:q{charge}s{spin}")
+    try:
+        e1, _, _ = dmet_energy(geom_p, frag_lists, solver, basis, loc, charge, spin, uhf)
+    except NotConverged:
+        raise
+    except Exception as ex:
+        ctx.violation(f"DMET with index lists {frag_lists} raises {type(ex).__name__} although the same fragments given as counts {counts} give {e0!r} (charge {charge}, spin {spin})", case)
+        return False
     if abs(e0 - e1) > 2e-5:
-        ctx.violation(f"DMET energy changes from {e0!r} to {e1!r} when the atoms are relabelled (permutation {perm}) and the same fragments are given as index lists {frag_lists} (count-based fragments {counts})", case)
+        ctx.violation(f"DMET energy changes from {e0!r} to {e1!r} when the atoms are relabelled (permutation {perm}) and the same fragments are given as index lists {frag_lists} (count-based fragments {counts}; charge {charge}, spin {spin})", case)
         return False
     # model correspondence for the re-ordering
     j = ctx.model.ask({"op": "dmet_reorder", "frags": frag_lists})
